@@ -1091,7 +1091,9 @@ func readCandidatePort(raw string, start int) (int, int, error) {
 // As defined in RFC 4566  1*(%x01-09/%x0B-0C/%x0E-FF) ;any byte except NUL, CR, or LF
 // we imply that extensions byte-string are UTF-8 encoded.
 func readCandidateByteString(raw string, start int) (string, int, error) {
-	for i, char := range raw[start:] {
+	// byte-string is defined over bytes, so iterate bytes rather than runes:
+	// multi-byte UTF-8 sequences are made of bytes in %x80-FF, all of which are allowed.
+	for i, char := range []byte(raw[start:]) {
 		if char == 0x20 { // SP
 			return raw[start : start+i], start + i + 1, nil
 		}
